@@ -6,7 +6,7 @@ import random
 from typing import Any, Iterable
 
 from ..runner import CheckBase, Violation
-from .common import CAUSES, STATE_CHAIN, gen_session, pick, with_cause
+from .common import make_rejecting, CAUSES, STATE_CHAIN, gen_session, pick, with_cause
 
 PHASE_ANCHORS = [
     {"on": "tcp_established"},
@@ -54,6 +54,14 @@ def transitions_oracle(history: list, pid: str = "C05") -> list[Violation]:
         elif kind == "is_connected":
             if d["value"] != (d["state"] == "CONNECTED"):
                 out.append(Violation("is-connected-flag", f"{d['state']}:{d['value']}", f"{d['conn']}: is_connected={d['value']} in state {d['state']}"))
+        elif kind == "on_stop" and "is_connected" in d:
+            # what the application sees from inside its stop callback
+            if d["is_connected"] != (d["state"] == "CONNECTED"):
+                out.append(Violation("is-connected-flag", f"in-stop-callback:{d['state']}:{d['is_connected']}", f"{d['conn']}: the stop callback runs with is_connected={d['is_connected']} in state {d['state']}"))
+        elif kind == "audit":
+            for cd in d.get("conns", []):
+                if cd.get("is_connected") != (cd.get("state") == "CONNECTED"):
+                    out.append(Violation("is-connected-flag", f"end:{cd.get('state')}:{cd.get('is_connected')}", f"{cd.get('conn')}: at the end of the run is_connected={cd.get('is_connected')} in state {cd.get('state')}"))
         elif kind == "flag_mismatch":
             out.append(Violation("is-connected-flag", f"sample:{d['state']}:{d['value']}", f"{d['conn']}: sampled is_connected={d['value']} in state {d['state']}"))
     return out
@@ -118,6 +126,11 @@ def reuse_oracle(history: list) -> list[Violation]:
             for op in open_ops.values():
                 if op["illegal"] and op["conn"] == d["conn"] and d["new"] != "CLOSED":
                     out.append(Violation("reuse-changes-state", f"{op['do']}:{d['old']}->{d['new']}", f"{op['do']} issued in state {op['before']} moved {d['conn']} {d['old']}->{d['new']}"))
+        elif kind in ("sock_new", "sock_connect", "getaddrinfo") and open_ops:
+            # one attempt per object: a refused start call must not resolve or open anything of its own
+            starts = [o for o in open_ops.values() if o["do"] == "conn.start"]
+            if starts and all(o["illegal"] for o in starts):
+                out.append(Violation("reuse-attempted", f"{kind}:{starts[0]['before']}", f"conn.start issued in state {starts[0]['before']} went on to {kind} (a second connect attempt on a used object)"))
         elif kind == "op_end" and d["do"] == "conn.new" and d.get("ok"):
             k2c["k0"] = d["value"]
         elif kind == "op_start" and d["do"] in ("conn.start", "conn.finish"):
@@ -169,6 +182,8 @@ class C05(CheckBase):
             from ..engine import run_scenario
 
             base = gen_session(rng, long_p=0.1)
+            if idx % 3 == 0:
+                make_rejecting(base, rng)  # the attempt is closed by a verdict of the library itself
             yield base
             T = run_scenario(base).turns
             causes = rng.sample(CAUSES, 3 if tier == "quick" else 5)
